@@ -1545,8 +1545,15 @@ impl AstNode for ChainSpecificBlock {
 /// let program = parse_string("tx swap() {}").unwrap();
 /// ```
 pub fn parse_string(input: &str) -> Result<Program, Error> {
-    let pairs = Tx3Grammar::parse(Rule::program, input)?;
-    Program::parse(pairs.into_iter().next().unwrap())
+    // pest only keeps the offending line, while the location of the error is an offset into
+    // the whole input: carry the whole input so that the label points inside the source
+    let with_source = |mut error: Error| {
+        error.src = input.to_string();
+        error
+    };
+
+    let pairs = Tx3Grammar::parse(Rule::program, input).map_err(|e| with_source(e.into()))?;
+    Program::parse(pairs.into_iter().next().unwrap()).map_err(with_source)
 }
 
 #[cfg(test)]
